@@ -19,7 +19,7 @@
                               statement says ("locking enabled"); the moved-from case is the Observation of C08. *)
 From Coq Require Import List Arith ZArith Lia Bool.
 Import ListNotations.
-From GV Require Import Sched Events WrapperModel WrapperProofs.
+From GV Require Import Sched Events WrapperModel WrapperProofs Wrapper2Model Wrapper2Proofs.
 Local Open Scope Z_scope.
 
 (* while t has exclusive access no other thread holds the mutex in any mode (every configuration), and -
@@ -173,3 +173,44 @@ Example ex_wf_nontrivial :
   wf_progs cf_w [[LockShared 0; Use 0 ARead false]] = false /\
   mu (init cf_w [[Lock 0; Destroy 0]; [LockShared 0]]) = 42%nat.
 Proof. vm_compute. repeat split. Qed.
+
+(* ---------- two objects of one instantiation, nested calls X -> Y (Model/Wrapper2Model.v) ----------
+   Every step of the product is a step of the single-object model in X or in Y (the invocation of a nested functor
+   is fused with the entry of its inner call), R2 cx cy progs s: s is reachable in the product.  sysX / sysY are
+   the two single-object views.  The theorems above hold for each object, whoever calls - in particular an
+   operation of Y made from inside the functor of X.modify excludes every other access of Y. *)
+Theorem wrapper2_excl_invariant : forall cx cy progs s t u, R2 cx cy progs s -> u <> t ->
+  (in_excl_access cy (sysY s) t -> ~ holds_lock cy (sysY s) u /\ (safe cy (gY (gl s)) -> ~ in_any_access (sysY s) u)) /\
+  (in_excl_access cx (sysX s) t -> ~ holds_lock cx (sysX s) u /\ (safe cx (gX (gl s)) -> ~ in_any_access (sysX s) u)).
+Proof. exact wrapper2_excl_invariant_l. Qed.
+Theorem wrapper2_windows_disjoint : forall cx cy progs s, R2 cx cy progs s ->
+  (safe cy (gY (gl s)) -> ~ (exists t u, t <> u /\ open_window (sysY s) t /\ open_write_window (sysY s) u)) /\
+  (safe cx (gX (gl s)) -> ~ (exists t u, t <> u /\ open_window (sysX s) t /\ open_write_window (sysX s) u)).
+Proof. exact wrapper2_windows_disjoint_l. Qed.
+Theorem wrapper2_no_lost_update : forall cx cy progs s, R2 cx cy progs s ->
+  (safe cy (gY (gl s)) -> owrites (gY (gl s)) = 0%nat -> val (gY (gl s)) = init_val cy + Z.of_nat (incrs (gY (gl s)))) /\
+  (safe cx (gX (gl s)) -> owrites (gX (gl s)) = 0%nat -> val (gX (gl s)) = init_val cx + Z.of_nat (incrs (gX (gl s)))) /\
+  (safe cy (gY (gl s)) -> faults (gY (gl s)) = nderef (gY (gl s))) /\
+  (safe cx (gX (gl s)) -> faults (gX (gl s)) = nderef (gX (gl s))).
+Proof. exact wrapper2_no_lost_update_l. Qed.
+Theorem wrapper2_no_leaked_lock : forall cx cy progs s t, R2 cx cy progs s ->
+  (owner (gY (gl s)) = Some t <-> lx cy (locof (projY (thr s)) t) = 1%nat) /\
+  (owner (gX (gl s)) = Some t <-> lx cx (locof (projX (thr s)) t) = 1%nat).
+Proof. exact wrapper2_no_leaked_lock_l. Qed.
+
+(* thread 0 is inside Y.modify called from the functor of X.modify (it owns both mutexes, its write window of Y
+   is open); thread 1's Y.modify waits; afterwards both finish and no increment is lost *)
+Definition cx2 : config := Cfg FOrdered MShared true 5 [] false.
+Definition cy2 : config := Cfg FOrdered MShared true 1 [] false.
+Definition progs2 := [[Nested 3 (Modify 4)]; [OnY (Modify 6)]].
+Definition ex_nested := run glob2 loc2 (tstep2 cx2 cy2) (init2 cx2 cy2 progs2) (rep 0 8 ++ rep 1 2).
+Example ex_nested_inner_excludes :
+  owner (gX (gl ex_nested)) = Some 0%nat /\ owner (gY (gl ex_nested)) = Some 0%nat /\
+  in_excl_access cy2 (sysY ex_nested) 0 /\ open_write_window (sysY ex_nested) 0 /\
+  at_ (lY (nth 1 (thr ex_nested) (Loc2 [] init_loc init_loc None))) = GAcq (Modify 6) /\
+  tstep2 cx2 cy2 1 0 (gl ex_nested) (nth 1 (thr ex_nested) (Loc2 [] init_loc init_loc None)) = None.
+Proof. vm_compute. repeat split; auto. Qed.
+Example ex_nested_finishes :
+  let s := run glob2 loc2 (tstep2 cx2 cy2) ex_nested (rep 0 8 ++ rep 1 8) in
+  forallb fin2 (thr s) = true /\ val (gX (gl s)) = 6 /\ val (gY (gl s)) = 3 /\ owner (gY (gl s)) = None.
+Proof. vm_compute. repeat split; auto. Qed.
